@@ -234,6 +234,9 @@ pub fn expand_by_hand(p: &Vec<PItem>) -> Option<Vec<Mapping>> {
   let outm = |mods: &Vec<PMod>, tmods: &Vec<PMod>, c: &Vec<usize>| -> Option<Vec<KeyCode>> { let mut v = Vec::new(); for m in tmods { match m { PMod::Key(k) => v.push(*k), PMod::Alias(a) => {
       let mut j = 0; let mut found = None; for tm in mods { if let PMod::Alias(b) = tm { if b == a { found = Some(j); } j += 1; } } v.extend(table[*a][c[found?]].iter()); } } } Some(v) };
   let mut res: Vec<Mapping> = Vec::new();
+  // an absorbing list may only name modifiers of the trigger
+  let same = |a: &PMod, b: &PMod| match (a, b) { (PMod::Alias(x), PMod::Alias(y)) => x == y, (PMod::Key(x), PMod::Key(y)) => x == y, _ => false };
+  for it in p { match it { PItem::Single { mods, x, .. } | PItem::Row { mods, x, .. } => { for a in &x.absorbing { if !mods.iter().any(|m| same(m, a)) { return None; } } }, _ => {} } }
   for it in p { match it {
     PItem::AliasDef { keys, .. } => { if !(keys.len() == 1 && is_mod_key(keys[0])) { res.push(Mapping { from: keys.clone(), to: vec![], repeat: Repeat::Normal, absorbing: vec![] }); } },
     // a Special repeat names its keys like an output: modifiers (aliases stand for the trigger-side choice), then the key
@@ -291,18 +294,39 @@ pub fn gen_program(r: &mut Rng) -> Vec<PItem> {
   }
   p
 }
+fn nodup(v: &Vec<KeyCode>) -> bool { (0..v.len()).all(|i| (i + 1..v.len()).all(|j| v[i] != v[j])) }
+fn hand_usable(m: &Mapping) -> bool { !m.from.is_empty() && nodup(&m.from) && nodup(&m.to) && match &m.repeat { Repeat::Special { keys, delay_ms, interval_ms } => nodup(keys) && *delay_ms >= 0 && *interval_ms >= 0, _ => true } }
 /// Ok(true): compared and equal; Ok(false): the loader rejected the program (nothing to compare); Err: the accepted layout differs from the hand-written expansion
 pub fn check_c13_program(p: &Vec<PItem>) -> Result<bool, String> {
   let text = program_json(p);
   let t2 = text.clone();
   // a panic while loading a program WITHOUT meaning is C14's business only; a program that has a hand-written expansion must convert to it, and a panic is not that
-  let got = match std::panic::catch_unwind(move || load(&t2)) { Ok(Ok(l)) => l, Ok(Err(_)) => return Ok(false),
+  let got = match std::panic::catch_unwind(move || load(&t2)) { Ok(Ok(l)) => l,
+    // a program that has a hand-written expansion which the mapper can take (no key twice in a trigger, an output or a chord) must be accepted
+    Ok(Err(msg)) => return match expand_by_hand(p) { Some(w) if w.iter().all(hand_usable) => Err(format!("the loader rejected ({}) a program whose hand-written expansion has {} usable mappings ({})", msg, w.len(), text)), _ => Ok(false) },
     Err(_) => return match expand_by_hand(p) { Some(w) => Err(format!("the loader panicked on a program whose hand-written expansion has {} mappings ({})", w.len(), text)), None => Ok(false) } };
   let want = match expand_by_hand(p) { Some(w) => w, None => return Err(format!("the loader accepted a program that has no hand-written expansion (undefined alias / output alias not on the trigger side / letter without key / row too short): {}", text)) };
   if got.mappings.len() != want.len() { return Err(format!("{} mappings, the hand-written expansion has {} ({})", got.mappings.len(), want.len(), text)); }
   for (i, w) in want.iter().enumerate() { let g = &got.mappings[i]; if g.from != w.from || g.to != w.to || g.repeat != w.repeat || g.absorbing != w.absorbing {
     return Err(format!("mapping {}: got {:?} -> {:?} ({:?}, absorbing {:?}), the hand-written expansion has {:?} -> {:?} ({:?}, absorbing {:?})", i, g.from, g.to, g.repeat, g.absorbing, w.from, w.to, w.repeat, w.absorbing)); } }
   Ok(true)
+}
+
+
+/// bounded stand-in for the part of C13 no contract states (WHEN the converter accepts): exactly `n` generated programs, seeded, each loaded through the real
+/// path and compared with the hand-written expansion in both directions (accepted ⇒ equal; a usable hand-written expansion ⇒ accepted; never a panic)
+pub fn programs_bounded(n: u64, seed: u64) -> i32 {
+  std::panic::set_hook(Box::new(|_| {}));
+  let mut r = Rng(seed.wrapping_mul(0x9E3779B97F4A7C15) | 1);
+  let (mut compared, mut rejected) = (0u64, 0u64);
+  let mut fails: Vec<serde_json::Value> = Vec::new();
+  for _ in 0..n {
+    let p = gen_program(&mut r);
+    match check_c13_program(&p) { Ok(true) => compared += 1, Ok(false) => rejected += 1,
+      Err(m) => { if fails.len() < 3 { fails.push(serde_json::json!({"input": format!("program {}", serde_json::to_string(&prog_to_value(&p)).unwrap()), "what": m})); } else { break; } } }
+  }
+  println!("{}", serde_json::json!({"programs": n, "accepted_and_equal": compared, "rejected_by_both": rejected, "failures": fails}));
+  if fails.is_empty() { 0 } else { 1 }
 }
 
 pub fn explore(prop: &str, secs: f64, seed: u64) -> i32 {
